@@ -39,6 +39,11 @@ func runC11(r *an.Run) {
 	c11OnlyPlusAdded(r)
 	formatOnly(r, "R4-formatting-never-adds-or-removes")
 	objectResolutionOn(r, "R5-object-resolution-is-on")
+	// what is deleted later is the import the matcher recorded: which file imports a patch import matches,
+	// and the name recorded for it, follow the four-row table of ImportMatcher.Match (a "named patch import
+	// matches an unnamed file import" row records a name under which the file has no import to delete)
+	c10ImportTable(r)
+	relabel(r, "R3-import-table", "R6-what-the-matcher-records-is-the-files-import")
 }
 
 func c11WhoMayEdit(r *an.Run) {
